@@ -1874,6 +1874,7 @@ def install(models):
     E[o + "get_or_insert"] = m_get_or_insert
     E[o + "get_or_insert_with"] = m_get_or_insert
     E[o + "flatten"] = m_opt_flatten
+    E["std::option::Option::<std::option::Option<T>>::flatten"] = m_opt_flatten
     E[o + "is_none_or"] = m_is_none_or
     E[o + "as_mut"] = M.m_as_ref
     E[o + "as_deref"] = M.m_as_ref
